@@ -25,12 +25,12 @@ DTYPES = {"quick": [torch.float32, torch.float64], "thorough": [torch.float32, t
 
 def regimes(kind: str) -> List[Dict[str, Any]]:
     return {
-        "brownian": [{}, {"sigma": 1.5, "mu": 0.3, "dt": 0.25}],
+        "brownian": [{}, {"sigma": 1.5, "mu": 0.3, "dt": 0.25}, {"sigma": 0.0}],
         "heston": [{}, {"sigma": 1.0, "theta": 0.01, "kappa": 0.5}, {"rho": 0.5, "dt": 0.1}],
-        "cir": [{}, {"sigma": 1.0, "theta": 0.005, "kappa": 0.3}],
-        "vasicek": [{}, {"sigma": 0.5, "kappa": 3.0, "theta": 0.1}],
-        "merton": [{}, {"jump_per_year": 300.0, "jump_std": 0.2, "jump_mean": -0.1}],
-        "kou": [{}, {"jump_per_year": 300.0, "jump_mean_up": 0.2, "jump_mean_down": 0.3}],
+        "cir": [{}, {"sigma": 1.0, "theta": 0.005, "kappa": 0.3}, {"sigma": 0.0}],      # sigma = 0: the deterministic mean-reverting limit
+        "vasicek": [{}, {"sigma": 0.5, "kappa": 3.0, "theta": 0.1}, {"sigma": 0.0}],
+        "merton": [{}, {"jump_per_year": 300.0, "jump_std": 0.2, "jump_mean": -0.1}, {"sigma": 0.0, "jump_per_year": 0.0}],
+        "kou": [{}, {"jump_per_year": 300.0, "jump_mean_up": 0.2, "jump_mean_down": 0.3}, {"sigma": 0.0, "jump_per_year": 0.0}],
         "rough_bergomi": [{}, {"eta": 3.0, "alpha": -0.45}],
         "local_volatility": [{}, {"dt": 0.1}],
     }[kind]
@@ -108,7 +108,8 @@ def replay_history(ctx: Ctx, rec: Dict[str, Any], dtype: torch.dtype, kw: Dict[s
                     ctx.violation(f"simulate:{kind}:first-column", f"{kind}.{name}[:, 0] is {b[0, 0].item()}, the {'requested' if custom else 'default'} initial state is {want_init[j]}", detail)
             # replaced = a new tensor object; identical CONTENT is additionally suspicious only where two independent draws
             # cannot coincide (float64, more than one time point, not a degenerate all-zero series)
-            same_content = (dtype == torch.float64 and b.shape == prev_vals.get(name, b[:0]).shape and t > 1 and name == "spot"
+            deterministic = kw.get("sigma") == 0.0                    # no randomness: two simulations legitimately coincide
+            same_content = (dtype == torch.float64 and b.shape == prev_vals.get(name, b[:0]).shape and t > 1 and name == "spot" and not deterministic
                             and bool((b[:, 1:] != 0).any()) and torch.equal(b, prev_vals[name]))
             if name in prev_ids and (prev_ids[name] == id(b) or same_content):
                 ctx.violation(f"simulate:{kind}:not-replaced", f"{kind}.{name} was not replaced by the new simulation", detail)
@@ -129,13 +130,13 @@ def generators(ctx: Ctx) -> None:
     """The nine generators against the same contract (shape, first column, dtype, finiteness, sign)."""
     import pfhedge.stochastic as st
     table: List[Tuple[str, Callable[..., Any], Tuple[float, ...], Tuple[float, ...], List[str], List[Dict[str, Any]]]] = [
-        ("generate_brownian", st.generate_brownian, (0.0,), (0.3,), ["real"], [{}, {"sigma": 2.0, "mu": 1.0, "dt": 0.25}]),
-        ("generate_geometric_brownian", st.generate_geometric_brownian, (1.0,), (1.5,), ["positive"], [{}, {"sigma": 1.5, "dt": 0.25}]),
+        ("generate_brownian", st.generate_brownian, (0.0,), (0.3,), ["real"], [{}, {"sigma": 2.0, "mu": 1.0, "dt": 0.25}, {"sigma": 0.0}]),
+        ("generate_geometric_brownian", st.generate_geometric_brownian, (1.0,), (1.5,), ["positive"], [{}, {"sigma": 1.5, "dt": 0.25}, {"sigma": 0.0}]),
         ("generate_heston", st.generate_heston, (1.0, 0.04), (1.5, 0.09), ["positive", "nonneg"], [{}, {"sigma": 1.0, "theta": 0.01, "kappa": 0.5}]),
-        ("generate_cir", st.generate_cir, (0.04,), (0.03,), ["nonneg"], [{}, {"sigma": 1.0, "theta": 0.005, "kappa": 0.3}]),
-        ("generate_vasicek", st.generate_vasicek, (0.04,), (0.03,), ["real"], [{}, {"sigma": 0.5, "kappa": 3.0, "theta": 0.1}]),
-        ("generate_merton_jump", st.generate_merton_jump, (1.0,), (1.5,), ["positive"], [{}, {"jump_per_year": 300.0, "jump_std": 0.2}]),
-        ("generate_kou_jump", st.generate_kou_jump, (1.0,), (1.5,), ["positive"], [{}, {"jump_per_year": 300.0, "jump_mean_up": 0.2}]),
+        ("generate_cir", st.generate_cir, (0.04,), (0.03,), ["nonneg"], [{}, {"sigma": 1.0, "theta": 0.005, "kappa": 0.3}, {"sigma": 0.0}]),
+        ("generate_vasicek", st.generate_vasicek, (0.04,), (0.03,), ["real"], [{}, {"sigma": 0.5, "kappa": 3.0, "theta": 0.1}, {"sigma": 0.0}]),
+        ("generate_merton_jump", st.generate_merton_jump, (1.0,), (1.5,), ["positive"], [{}, {"jump_per_year": 300.0, "jump_std": 0.2}, {"sigma": 0.0, "jump_per_year": 0.0}]),
+        ("generate_kou_jump", st.generate_kou_jump, (1.0,), (1.5,), ["positive"], [{}, {"jump_per_year": 300.0, "jump_mean_up": 0.2}, {"sigma": 0.0, "jump_per_year": 0.0}]),
         ("generate_rough_bergomi", st.generate_rough_bergomi, (1.0, 0.04), (1.5, 0.09), ["positive", "nonneg"], [{}, {"eta": 3.0}]),
         ("generate_local_volatility_process", lambda *a, **k: st.generate_local_volatility_process(*a, sigma_fn=lambda t, s: torch.full_like(s, 0.3), **k), (1.0,), (1.5,), ["real", "nonneg"], [{}]),
     ]
